@@ -225,3 +225,16 @@ PROPS['C15'] = dict(
     min_stats={'cases': 100},
     assumptions=['a payload that does not decode is expected to be Nacked (the handler is never invoked); the statement itself is silent about malformed payloads'],
 )
+
+PROPS['C17'] = dict(
+    level='model_checking',
+    design=[D('MCRelay', 'MCRelay.cfg')],
+    traces={'RelayTrace': dict(module='RelayTrace', cfg='RelayTrace.cfg')},
+    rule='runs = {Forwarder (fed with envelopes produced by its own Publisher, singly and as one batch call, plus non-JSON and empty-destination envelopes, AckWhenCannotUnwrap on/off), '
+         'FanIn (2 source topics), Requeuer (existing, unparsable and absent retries counters; a delayed requeue whose message context ends), FanOut (2 subscribers per topic)} x '
+         'destination failure scripts {none, 1st, 2nd, 1st+2nd, 1st+3rd call}; the scripted source redelivers a fresh copy after every Nack; non-trivial = a failure script or an '
+         'envelope decision is involved',
+    exhaustive=False,
+    min_stats={'cases': 15},
+    assumptions=['the settlement of the consumed copy is sampled inside the scripted destination publisher', 'retries counters used are single digits (ToNat in Relay.tla)'],
+)
